@@ -282,7 +282,7 @@ func lineSyms(l string) []string {
 
 // irrelevantAxioms returns the indices of axiom assertions (the line after a "; axiom <name>" comment) that cannot
 // matter for this obligation: an axiom is kept iff it mentions no specification symbol at all (ground facts about Go
-// objects) or shares a symbol with the rest of the script or — transitively — with a kept axiom. Dropping an assumption
+// objects) or one of its characteristic (rarest) symbols occurs in the rest of the script or — transitively — in a kept axiom. Dropping an assumption
 // is always sound; it keeps quantified background theories of unrelated modules away from the solvers.
 // VERIF_ALL_AXIOMS=1 disables the filter.
 func irrelevantAxioms(lines []string, rest []string) map[int]bool {
@@ -294,11 +294,12 @@ func irrelevantAxioms(lines []string, rest []string) map[int]bool {
 	type ax struct {
 		idx  int
 		syms []string
+		char []string
 	}
 	var axs []ax
 	for i, l := range lines {
 		if i > 0 && strings.HasPrefix(lines[i-1], "; axiom ") && strings.HasPrefix(l, "(assert ") {
-			axs = append(axs, ax{i, lineSyms(l)})
+			axs = append(axs, ax{idx: i, syms: lineSyms(l)})
 			continue
 		}
 		if strings.HasPrefix(l, "(declare-") || strings.HasPrefix(l, ";") {
@@ -313,6 +314,32 @@ func irrelevantAxioms(lines []string, rest []string) map[int]bool {
 			used[s] = true
 		}
 	}
+	// An axiom is "about" its rarest symbols (those mentioned by the fewest axioms): blen(keccak256(b)) == 32 is about
+	// keccak256, not about blen. Only these characteristic symbols make it relevant; all its symbols count as used once
+	// it is kept.
+	freq := map[string]int{}
+	for _, a := range axs {
+		seen := map[string]bool{}
+		for _, s := range a.syms {
+			if !seen[s] {
+				seen[s] = true
+				freq[s]++
+			}
+		}
+	}
+	for i := range axs {
+		minf := 0
+		for _, s := range axs[i].syms {
+			if minf == 0 || freq[s] < minf {
+				minf = freq[s]
+			}
+		}
+		for _, s := range axs[i].syms {
+			if freq[s] == minf {
+				axs[i].char = append(axs[i].char, s)
+			}
+		}
+	}
 	kept := map[int]bool{}
 	for changed := true; changed; {
 		changed = false
@@ -321,7 +348,7 @@ func irrelevantAxioms(lines []string, rest []string) map[int]bool {
 				continue
 			}
 			rel := len(a.syms) == 0
-			for _, s := range a.syms {
+			for _, s := range a.char {
 				if used[s] {
 					rel = true
 					break
